@@ -565,6 +565,3 @@ func firstComment(s string) string {
 }
 
 // tryReplay: per-function replay adapters (see replay.go); returns true if the model reproduced on real code.
-func tryReplay(eng *Engine, verif, prop string, ob *Obligation, b *strings.Builder) bool {
-	return false
-}
